@@ -239,9 +239,9 @@ func genFltExch(t *rapid.T) FltExch {
 	case x.Route == "deadup":
 		faults = []string{"deadup"}
 	case x.Method == "CONNECT" && x.Route == "direct":
-		faults = []string{"none", "refused", "dial-timeout"}
+		faults = []string{"none", "refused", "dial-timeout", "tunnel-cut", "tunnel-rst"}
 	case x.Method == "CONNECT" && x.Route == "upstream":
-		faults = []string{"none", "upstream-reject", "upstream-reject"}
+		faults = []string{"none", "upstream-reject", "upstream-reject", "tunnel-cut", "tunnel-rst"}
 	case x.Route == "direct":
 		faults = []string{"none", "refused", "dial-timeout", "cut", "cut", "cut", "rst", "rst", "bad-status", "bad-chunk", "dup-cl"}
 	case x.Route == "mitm":
@@ -258,7 +258,7 @@ func genFltExch(t *rapid.T) FltExch {
 	if x.Fault == "tls-hostile" {
 		x.Var = rapid.IntRange(0, len(hostileTLSReplies)-1).Draw(t, "hostilereply")
 	}
-	if x.Fault == "cut" || x.Fault == "rst" {
+	if x.Fault == "cut" || x.Fault == "rst" || x.Fault == "tunnel-cut" || x.Fault == "tunnel-rst" {
 		switch rapid.IntRange(0, 5).Draw(t, "kkind") {
 		case 0:
 			x.K = 0
@@ -469,6 +469,37 @@ func (e *fltEnv) exchange(x FltExch, id int64, idx int) (o fltOutcome) {
 	default:
 		o.kind = "truncated"
 	}
+	if o.kind == "complete" && x.Method == "CONNECT" && m.Status == 200 && (x.Fault == "tunnel-cut" || x.Fault == "tunnel-rst") {
+		// the failure happens after the response head (the 200 to the CONNECT) was sent: the target ends its reply
+		// inside the tunnel after k bytes, with FIN or RST. The client gets those bytes at most, then a closed
+		// connection - not silence.
+		k := x.K
+		switch {
+		case k == -1:
+			k = headLen + (len(raw)-headLen)/2
+		case k == -2:
+			k = len(raw) - 1
+		}
+		k = max(0, min(k, len(raw)))
+		tvid := vid + "-t"
+		scripts.Store(tvid, &OriginScript{Parts: [][]byte{raw[:k]}, CloseAfter: true, RST: x.Fault == "tunnel-rst"})
+		defer scripts.Delete(tvid)
+		fmt.Fprintf(conn, "GET /t HTTP/1.1\r\nHost: %s\r\nX-Vid: %s\r\n\r\n", host, tvid)
+		tc.SetReadDeadline(time.Now().Add(6 * time.Second))
+		got, rerr := io.ReadAll(br)
+		var tne net.Error
+		switch {
+		case errors.As(rerr, &tne) && tne.Timeout():
+			o.follow = fmt.Sprintf("the target ended the tunnelled connection after %d bytes (%s) but the client's connection is still open 6 s later (%d bytes received)", k, x.Fault, len(got))
+		case !bytes.HasPrefix(raw[:k], got):
+			o.follow = fmt.Sprintf("the client received %d bytes that are not a prefix of the %d bytes the target sent before its %s: %q", len(got), k, x.Fault, clip(got))
+		case x.Fault == "tunnel-cut" && len(got) != k:
+			o.follow = fmt.Sprintf("the target sent %d bytes and closed in order (FIN); the client received %d before its connection ended (%v)", k, len(got), rerr)
+		default:
+			o.follow = "ok"
+		}
+		return o
+	}
 	if o.kind == "complete" && x.Method == "CONNECT" && m.Status == 200 {
 		// probe the tunnel: the scripted origin answers inside it
 		fmt.Fprintf(conn, "GET /t HTTP/1.1\r\nHost: %s\r\nX-Vid: %s-t\r\n\r\n", host, vid)
@@ -579,7 +610,7 @@ func judgeFlt(x FltExch, o fltOutcome) (fails []vstat.Failure) {
 	// complete message
 	m := o.msg
 	if x.Method == "CONNECT" && m.Status == 200 {
-		if x.Fault != "none" {
+		if x.Fault != "none" && x.Fault != "tunnel-cut" && x.Fault != "tunnel-rst" {
 			fails = append(fails, vstat.Failf(key("connect-ok-despite-fault"), "CONNECT answered 200 although the target cannot be reached: %s", desc))
 		}
 		if o.follow != "ok" {
